@@ -131,4 +131,49 @@ theorem tetSecond_translate (T : Tet ℝ) (c : V3 ℝ) (i j : Nat) (hi : i < 3) 
   cases3 i <;> cases3 j <;> unfold Spec.tetSecond Spec.tetFirst Spec.tetVol Spec.tetSum <;>
     unfold_model <;> ring
 
+
+theorem first_get (Ts : List (Tet ℝ)) (i : Nat) (hi : i < 3) :
+    (Spec.first Ts).get i = (Ts.map fun T => (Spec.tetFirst T).get i).sum := by
+  cases3 i
+  · simpa using Spec.first_x Ts
+  · simpa using Spec.first_y Ts
+  · simpa using Spec.first_z Ts
+
+theorem V3.ext_get {u v : V3 ℝ} (h : ∀ i, i < 3 → u.get i = v.get i) : u = v := by
+  have h0 := h 0 (by omega); have h1 := h 1 (by omega); have h2 := h 2 (by omega)
+  simp only [V3.get_zero, V3.get_one, V3.get_two] at h0 h1 h2
+  exact V3.ext' h0 h1 h2
+
+theorem second_translate (Ts : List (Tet ℝ)) (c : V3 ℝ) (i j : Nat) (hi : i < 3) (hj : j < 3) :
+    Spec.second (Ts.map (Tet.map (· - c))) i j =
+      Spec.second Ts i j - c.get i * (Spec.first Ts).get j - c.get j * (Spec.first Ts).get i
+        + c.get i * c.get j * Spec.vol Ts := by
+  rw [Spec.second_eq, Spec.second_eq, first_get Ts j hj, first_get Ts i hi, Spec.vol_eq]
+  induction Ts with
+  | nil => simp
+  | cons T Ts ih =>
+    simp only [List.map_cons, List.sum_cons, List.map_map] at ih ⊢
+    rw [tetSecond_translate T c i j hi hj]
+    have := ih
+    simp only [Function.comp_def] at this ⊢
+    linarith
+
+/-- centred second moments: with `c` the centroid, `M(Ts − c) = M(Ts) − vol · c cᵀ` -/
+theorem second_centred (Ts : List (Tet ℝ)) (i j : Nat) (hi : i < 3) (hj : j < 3)
+    (hv : Spec.vol Ts ≠ 0) :
+    Spec.second (Ts.map (Tet.map (· - Spec.centroid Ts))) i j =
+      Spec.second Ts i j - Spec.vol Ts * (Spec.centroid Ts).get i * (Spec.centroid Ts).get j := by
+  rw [second_translate Ts _ i j hi hj]
+  have hc : ∀ k, k < 3 → (Spec.first Ts).get k = Spec.vol Ts * (Spec.centroid Ts).get k := by
+    intro k hk; unfold Spec.centroid
+    cases3 k <;> simp only [V3.get_zero, V3.get_one, V3.get_two, V3.sdiv_x, V3.sdiv_y, V3.sdiv_z] <;>
+      field_simp
+  rw [hc i hi, hc j hj]; ring
+
+theorem M3.ext' {A B : M3 ℝ} (h1 : A.xx = B.xx) (h2 : A.xy = B.xy) (h3 : A.xz = B.xz)
+    (h4 : A.yx = B.yx) (h5 : A.yy = B.yy) (h6 : A.yz = B.yz) (h7 : A.zx = B.zx)
+    (h8 : A.zy = B.zy) (h9 : A.zz = B.zz) : A = B := by
+  cases A; cases B; simp_all
+
+
 end
